@@ -13,9 +13,32 @@ def l0(prop, name, real, bounds, quick=(45, 400000), thorough=(900, 40000000), e
 
 REGISTRY = {}
 
+L2_STUB = ["OS thread scheduler (seeded serialising scheduler over parked pthreads)", "clock (discrete-event simulated clock)",
+           "MPI library and network (simmpi: in-process MPI subset with seeded delays / reordering / partial completion)",
+           "hwloc topology (HWLOC_SYNTHETIC 16 cores)"]
+
+def l2(prop, name, driver, harness_src, ranks, real, bounds, quick=(100, 100000), thorough=(1500, 10000000), knobs=(), engine="simcore-L2", **kw):
+    d = {"property": prop, "harness": name, "instr": list(driver), "plain": list(harness_src), "ranked": ranks,
+         "real": real, "stub": L2_STUB, "bounds": bounds, "engine": engine, "knobs_cli": list(knobs),
+         "budget": {"quick": {"time": quick[0], "runs": quick[1]}, "thorough": {"time": thorough[0], "runs": thorough[1]}}}
+    d.update(kw)
+    return d
+
 REGISTRY["C30"] = l0("C30", "c30_lifo",
     real=["parsec/class/lifo.h (inline 128-bit CAS variant, via instrumented shim)", "parsec/class/parsec_lifo.c (out-of-line copy)", "parsec/class/parsec_object.c"],
     bounds="2-4 sim-threads, <= 22 operations (push/chain/pop/try_pop), 0-4 initial + 1-3 items per thread, items recycled; WGL linearizability + conservation")
+
+DTD_REAL = ["all of libparsec, instrumented: DTD front end (insert_function.c, overlap_strategies.c, parsec_dtd_data_flush.c), scheduling.c, the selected scheduler module, "
+            "remote_dep*.c, parsec_mpi_funnelled.c, data.c, arena.c, termdet modules", "harness/l2/dtd_driver.c (rankified with the library, one copy per simulated rank)"]
+REGISTRY["C03"] = l2("C03", "dtd", ["harness/l2/dtd_driver.c"], ["harness/l2/dtd.c"], 4, DTD_REAL,
+    "1-4 ranks x 1-8 worker threads, 2-6 tiles of 1-4 elements, 3-28 insertions of 1-4 parameters (IN/OUT/INOUT, same tile repeated allowed), 11 schedulers, window in {default,1,2,8}, threshold in {default,1,2,4}, tasks inserting tasks (1 rank), network latency/jitter/heavy-tail/eager-limit/partial+lagging Testsome/late send completion",
+    knobs=["prop=3"])
+REGISTRY["C04"] = l2("C04", "dtd", ["harness/l2/dtd_driver.c"], ["harness/l2/dtd.c"], 4, DTD_REAL,
+    "as C03 (interval oracle per rank: conflicting accesses never in flight together, a writer never begins before an earlier-inserted reader/writer of the tile ended, value stable under a running reader)",
+    knobs=["prop=4"])
+REGISTRY["C17"] = l2("C17", "dtd", ["harness/l2/dtd_driver.c"], ["harness/l2/dtd.c"], 4, DTD_REAL,
+    "as C03 with partial flushes (random subset of tiles) or flush_all; owner copy after flush+wait compared with the last writer in insertion order",
+    knobs=["prop=17"])
 
 # fragments written per property (one file each, so that harnesses can be developed independently)
 import glob, os as _os
